@@ -36,14 +36,14 @@ func TestVerifAsDaemon(t *testing.T) {
 }
 
 type rEvent struct {
-	Seq      int
-	T        time.Duration
-	Kind     string // ra notify signal exit note
-	Life     time.Duration
-	Dst      string
-	Hop      int
-	Text     string
-	RA       *model.RA
+	Seq  int
+	T    time.Duration
+	Kind string // ra notify signal exit note
+	Life time.Duration
+	Dst  string
+	Hop  int
+	Text string
+	RA   *model.RA
 }
 
 type rLog struct {
@@ -99,9 +99,9 @@ func (l *rLog) strings() []string {
 
 // A probe listens on vb and records every RA.
 type probe struct {
-	c   *ndp.Conn
-	ip  netip.Addr
-	lg  *rLog
+	c  *ndp.Conn
+	ip netip.Addr
+	lg *rLog
 }
 
 func newProbe(lg *rLog) (*probe, error) {
@@ -246,7 +246,9 @@ func sysctl(name string) string {
 	return strings.TrimSpace(string(b))
 }
 
-func setSysctl(name, v string) { _ = os.WriteFile("/proc/sys/net/ipv6/conf/va/"+name, []byte(v), 0o644) }
+func setSysctl(name, v string) {
+	_ = os.WriteFile("/proc/sys/net/ipv6/conf/va/"+name, []byte(v), 0o644)
+}
 
 func sh(args ...string) error { return exec.Command(args[0], args[1:]...).Run() }
 
@@ -568,6 +570,78 @@ func TestVerifDaemon(t *testing.T) {
 				return "no solicitation was answered within 15 s after the link flap: " + lastLines(d.stderr.String(), 6), "half-alive"
 			}
 			r.Count("link_flap_recovered", 1)
+			return "", ""
+		})
+	}
+
+	if prop == "C16" {
+		scen("deprecated-countdown", func(id string, lg *rLog, p *probe) (string, string) {
+			const valid, pref = 7 * time.Second, 4 * time.Second
+			cfg := "[[interfaces]]\nname = \"va\"\nadvertise = true\nmax_interval = \"4s\"\n  [[interfaces.prefix]]\n  prefix = \"2001:db8:dead::/64\"\n  deprecated = true\n  valid_lifetime = \"7s\"\n  preferred_lifetime = \"4s\"\n  [[interfaces.route]]\n  prefix = \"2001:db8:beef::/48\"\n  deprecated = true\n  lifetime = \"5s\"\n  [[interfaces.prefix]]\n  prefix = \"2001:db8:cafe::/64\"\n"
+			spawn := time.Since(lg.start)
+			d, err := startDaemon(lg, dir, cfg)
+			if err != nil {
+				return err.Error(), "inconclusive"
+			}
+			defer d.kill()
+			rdy, ok := lg.waitFor(func(e rEvent) bool { return e.Kind == "notify" && e.Text == "READY=1" }, -1, 8*time.Second)
+			if !ok {
+				return "READY=1 not announced: " + lastLines(d.stderr.String(), 4), "inconclusive"
+			}
+			var lastV, lastP, lastR time.Duration = 1 << 62, 1 << 62, 1 << 62
+			sawZero := false
+			for i := 0; i < 12; i++ {
+				_ = p.rs(255)
+				time.Sleep(750 * time.Millisecond)
+			}
+			for _, e := range lg.snapshot() {
+				if e.Kind != "ra" {
+					continue
+				}
+				for _, o := range e.RA.Options {
+					switch {
+					case o.Kind == "prefix" && o.Prefix == "2001:db8:cafe::/64":
+						if o.Valid != int64(24*time.Hour) || o.Preferred != int64(4*time.Hour) {
+							return fmt.Sprintf("non-deprecated prefix advertised valid=%v preferred=%v", time.Duration(o.Valid), time.Duration(o.Preferred)), "constant-changed"
+						}
+					case o.Kind == "prefix" && o.Prefix == "2001:db8:dead::/64":
+						v, pr := time.Duration(o.Valid), time.Duration(o.Preferred)
+						// the epoch lies between spawn and READY; the RA was built at most
+						// ~0.6 s (unicast delay) before it was received
+						lo := valid - (e.T - spawn) - time.Second
+						hi := valid - (e.T - rdy.T) + 1600*time.Millisecond
+						if lo < 0 {
+							lo = 0
+						}
+						if hi < 0 {
+							hi = 0
+						}
+						if v < lo.Truncate(time.Second) || v > hi {
+							return fmt.Sprintf("at %v the deprecated prefix advertises valid=%v; start+7s−now lies in [%v,%v]", e.T.Round(time.Millisecond), v, lo, hi), "wrong-remaining"
+						}
+						if pr > v {
+							return fmt.Sprintf("preferred %v exceeds valid %v", pr, v), "preferred-exceeds-valid"
+						}
+						if v > lastV || pr > lastP {
+							return fmt.Sprintf("lifetime increased: valid %v→%v preferred %v→%v", lastV, v, lastP, pr), "increased"
+						}
+						lastV, lastP = v, pr
+						if v == 0 {
+							sawZero = true
+						}
+						_ = pref
+					case o.Kind == "route" && o.Prefix == "2001:db8:beef::/48":
+						if time.Duration(o.Lifetime) > lastR {
+							return fmt.Sprintf("route lifetime increased %v→%v", lastR, time.Duration(o.Lifetime)), "increased"
+						}
+						lastR = time.Duration(o.Lifetime)
+					}
+				}
+			}
+			if !sawZero || lastR != 0 {
+				return fmt.Sprintf("after 9 s the deprecated prefix (valid 7s) / route (5s) still advertise valid=%v route=%v", lastV, lastR), "not-zero-after-deadline"
+			}
+			r.Count("countdown_reached_zero", 1)
 			return "", ""
 		})
 	}
